@@ -23,6 +23,21 @@ def load_known():
     return json.load(open(p)).get("findings", [])
 
 
+def load_exceptions():
+    p = os.path.join(VERIF, "baseline", "exceptions.json")
+    if not os.path.exists(p):
+        return []
+    return json.load(open(p)).get("exceptions", [])
+
+
+def exception_for(name, exceptions):
+    import fnmatch
+    for e in exceptions:
+        if fnmatch.fnmatchcase(name, e["pattern"]):
+            return e
+    return None
+
+
 def load_baseline():
     p = os.path.join(VERIF, "baseline", "obligations.json")
     if not os.path.exists(p):
@@ -55,6 +70,7 @@ def run_properties(props, args, seed, scratch, manifest):
             results[o["name"]] = fu.result()
     known = load_known()
     baseline = load_baseline()
+    exceptions = load_exceptions()
     rc = 0
     all_names = {o["name"] for o in obls}
     for p in props:
@@ -66,10 +82,16 @@ def run_properties(props, args, seed, scratch, manifest):
         solver_time = 0.0
         undecided = []
         covers_undecided = []
+        excepted = []
         carved = {o["name"][:-len("!carved")]: o for o in pobls if o["name"].endswith("!carved")}
         for o in pobls:
             name = o["name"]
             if name.endswith("!carved"):
+                continue
+            exc = exception_for(name, exceptions)
+            if exc is not None:
+                ok = (o["backend"] == "static" and o.get("static") == "ok") or (o["backend"] == "smt" and results[name]["answer"] == ("sat" if o.get("cover") else "unsat"))
+                excepted.append({"obligation": name, "kind": exc["kind"], "reason": exc["reason"], "holds_anyway": bool(ok)})
                 continue
             total += 1
             if o["backend"] == "static":
@@ -142,7 +164,7 @@ def run_properties(props, args, seed, scratch, manifest):
             rc = 1
         fns = [f for f in out["functions"] if p in (f.get("props") or [])]
         write_evidence(p, args.tier, seed, pobls, {"total": total, "discharged": discharged, "by_backend": by_backend,
-                       "solver_time": solver_time, "samples": samples, "undecided": undecided, "covers_undecided": covers_undecided, "kf": kf_lines,
+                       "solver_time": solver_time, "samples": samples, "undecided": undecided, "covers_undecided": covers_undecided, "excepted": excepted, "kf": kf_lines,
                        "violations": [(o["name"], why) for o, r, why in viol]},
                        fns, time.time() - t_start, nviol, out, gen_s)
         print("property %s: %d obligations, %d discharged, %d violations, %d known findings (%.1fs)" % (
@@ -203,6 +225,8 @@ def write_evidence(prop, tier, seed, pobls, st, fns, wall, nviol, out, gen_s):
     assumptions += ["assumed contract (not verified): " + a for a in sorted(assumed_used)]
     assumptions += ["trusted function: " + t for t in trusted_fns]
     assumptions += ["abstraction: " + n for n in notes[:60]]
+    for x in st.get("excepted", []):
+        assumptions.append("%s obligation %s: %s" % (x["kind"], x["obligation"], x["reason"]))
     assumptions += [
         "termination is never proved (partial correctness; callee contracts assumed at recursive calls)",
         "integers: arith int = mathematical Int with exact wrap per Go operation; arith bv = bit-vectors",
@@ -228,6 +252,7 @@ def write_evidence(prop, tier, seed, pobls, st, fns, wall, nviol, out, gen_s):
         "vcgen_s": round(gen_s or 0.0, 2),
         "undecided": st.get("undecided", []),
         "covers_undecided_not_counted": st.get("covers_undecided", []),
+        "not_claimed": st.get("excepted", []),
         "known_findings_seen": st.get("kf", []),
         "violations": st.get("violations", []),
         "explanation": "every obligation is an SMT query (path condition and negated goal) generated from go/ssa of /repo's working tree; "
